@@ -97,6 +97,7 @@ def run_migration(ctx, files, faults, label):
     sp.models['csv_to_merchants_content'] = Func(m_convert)
     sp.models['len'] = Func(lambda I_, a, k, n: Untracked())
     sp.models['os.path.join'] = Func(lambda I_, a, k, n: '/'.join(a))
+    sp.models['os.path.basename'] = Func(lambda I_, a, k, n: a[0].split('/')[-1] if isinstance(a[0], str) else Untracked())
     sp.models['os.path.exists'] = Func(lambda I_, a, k, n: a[0] in fs.files)
 
     class Handle:
@@ -211,7 +212,14 @@ def run_migration(ctx, files, faults, label):
 def h_migrate(ctx):
     had_key = False          # migration is only offered when settings.yaml has no merchants_file (load_config format 'csv')
     fs0 = FS(had_key)
-    fs, result, state = run_migration(ctx, dict(fs0.files), 'explore', 'first')
+    start = dict(fs0.files)
+    # budgets that already have target files: a merchants.rules the user wrote by hand (not named in settings yet) and / or an older backup
+    existing = ctx.choose(4, 'existing_targets')
+    if existing in (1, 3):
+        start[RULES] = ('hand_written_rules',)
+    if existing in (2, 3):
+        start[BAK] = ('older_backup',)
+    fs, result, state = run_migration(ctx, dict(start), 'explore', 'first')
     # obligations at every effect boundary reached on this path (each boundary is a possible crash point; the last one is the exit)
     label, files = fs.boundaries[-1]
     where = label if state['crashed'] or label.startswith('return') else label
@@ -219,8 +227,11 @@ def h_migrate(ctx):
     point = (prev[-1] if state['crashed'] and prev else label)
     tag = ('crash_after[%s]' % point) if state['crashed'] else ('exit[%s%s]' % (label, ',after_oserror' if state['fault_used'] and result is False else ''))
     # (1) nothing lost
-    kept = files.get(CSV) == ('csv',) or files.get(BAK) == ('csv',)
+    kept = ('csv',) in files.values()          # in place or under a backup name
     ctx.check('C15.csv_migration.%s.user_rules_content_kept' % tag, kept, 'property')
+    for content in (('hand_written_rules',), ('older_backup',)):
+        if content in start.values():
+            ctx.check('C15.csv_migration.%s.existing_%s_content_kept' % (tag, content[0]), content in files.values(), 'property')
     st = files.get(SETTINGS)
     ctx.check('C15.csv_migration.%s.settings_content_kept' % tag, st is not None and st[1] != 'lost', 'property')
     # (2) still classifies with the user's rules, or does after re-running the same command
